@@ -1,10 +1,17 @@
+import KyupyVerif.Drv.Sdf
+import KyupyVerif.Drv.Encode
+import KyupyVerif.Drv.Stil
+import KyupyVerif.Drv.Def
 /-! Stateless driver extensions: each module `KyupyVerif/Drv/<Name>.lean` defines
 `handle : String → List String → Option String` (command word, remaining tokens → answer, or `none`
 when the command is not its own) and is listed in `extHandlers` below. -/
 namespace KV.Drv
 
 def extHandlers : List (String → List String → Option String) := [
-  -- one entry per extension module, e.g. Sdf.handle, Stil.handle
+  KV.Drv.Sdf.handle,
+  KV.Drv.Encode.handle,
+  KV.Drv.Stil.handle,
+  KV.Drv.Def.handle
 ]
 
 def tryExt (cmd : String) (args : List String) : Option String :=
